@@ -81,12 +81,6 @@ Inductive rd := RdDir (ch : ascii) (colon at_ : bool) (ps : list param) (c : ctl
               | RdErr (t : bool) | RdFuel | RdUnsup.
 Definition is_dir_char (b : ascii) : bool :=
   existsb (ascii_eqb b) (nl :: tx "$%&(*/<=?AaBbCcDdEeFfGgIiOoPpRrSsTtWwXx[{|^~").
-Definition rchar_eqb (x y : rchar * nat) : bool :=
-  match fst x, fst y with
-  | RChar a, RChar b => ascii_eqb a b && Nat.eqb (snd x) (snd y)
-  | RCharErr, RCharErr => true
-  | _, _ => false
-  end.
 
 (* the end of a number that starts at pos - 1: the digits from pos on *)
 Fixpoint num_end (fuel : nat) (s : text) (pos cend : nat) : nat :=
@@ -125,17 +119,11 @@ Fixpoint read_dir (fuel : nat) (c : ctl) (colon at_ : bool) (ps : list param) : 
              end
         else read_dir f c1 colon at_ (ps ++ [PNone])
       else if ascii_eqb ch "'" then
-        (* site: the Go code reads up to the next byte of the scan map and hands that to ReadCharacter;
-           the definition is: the single character after the quote *)
-        let p := go_read_param T (c_end c) (c_str c) (c_pos c1) (c_end c) in
-        let i := (go_read_character (sub (c_str c) (c_pos c1) p), p) in
-        let s := if Nat.ltb (c_pos c1) (c_end c) then (RChar (ch_at (c_str c) (c_pos c1)), S (c_pos c1)) else (RCharErr, c_pos c1) in
-        let t := negb (rchar_eqb i s) in
-        match pick i s with
-        | (RChar a, p') => read_dir f (add_taint (set_pos c1 p') t) colon at_ (ps ++ [PChr a])
-        | (RCharErr, _) => RdErr (c_taint c || t)
-        | (RCharUnsup, _) => RdUnsup
-        end
+        (* the single character after the quote, whatever it is (utf8.DecodeRune; the universe is ASCII);
+           nothing after the quote: invalid directive *)
+        if Nat.ltb (c_pos c1) (c_end c)
+        then read_dir f (set_pos c1 (S (c_pos c1))) colon at_ (ps ++ [PChr (ch_at (c_str c) (c_pos c1))])
+        else RdErr (c_taint c)
       else if ascii_eqb ch "-" || is_digit ch then
         (* site: c.pos-- ; readParam reads up to the next byte of the scan map; the definition: an optional
            sign and the digits that follow *)
